@@ -148,7 +148,7 @@ func TestVerifC13CrashPoints(t *testing.T) {
 	rapid.Check(t, func(t *rapid.T) {
 		k := vc13GenKill(t)
 
-		w := vc13NewWorld(t, st, msgs, baseDir, true)
+		w := vc13NewWorld(t, st, msgs, baseDir, true, vc13ChildTimeout)
 		defer w.close()
 
 		tmpDir, err := os.MkdirTemp(baseDir, "tmp-")
